@@ -148,7 +148,7 @@ PROPS = {
                 "direct auxv) into destinations with pre-existing content; the Lean decoder collects every object of the real image and evaluates the "
                 "structural predicate. Distinct = distinct (#threads, #streams, option vector).",
         "expected_tags": ["cfg.crash", "cfg.limit", "cfg.sanitize", "cfg.skip", "cfg.app", "cfg.umap", "cfg.auxv", "threads.gt20", "stream.3", "stream.24", "stream.12", "image.exact"],
-        "extra_theorems": ["plan_entries_fit", "plan_types_distinct", "consts_agree", "System_builder", "gatherDump_ok", "systemDump_ok"],
+        "extra_theorems": ["plan_entries_fit", "plan_types_distinct", "consts_agree", "System_builder", "gatherDump_ok", "systemDump_ok", "ExcFields_source_agrees", "ExcFields_verbatim", "ExcFields_fallback_context"],
         "trusted_base": ["the writers fill array slots with indices below the array size (thread list, module list, memory list: `enumerate()` over the list "
                          "that sized the array; thread names: C15_layout; directory: plan_entries_fit)",
                          "Linux/x86_64 only; src/mac and src/windows writers cannot be built or run here"],
@@ -162,7 +162,7 @@ PROPS = {
                        "referenced blob in append order, every stored offset computed from what precedes it); C01_image_header / _directory / _streams_disjoint / "
                        "_thread_refs / _aliases prove, for every content record, what a reader finds in that image; the driver decodes every real image into such a "
                        "record and demands that the model rebuilds the image byte for byte (every byte of a real dump is accounted for by the model). C01_compose_dump: generate_dump as builder operations (header and directory reserved, header filled, the eighteen writers in order, each directory entry set into the next slot) produces exactly the closed-form image (opDump d = some (dumpBytes d)); C01_refine_* / C01_image_module_refs / _os_version / _handle_refs / _link_map_refs cover the remaining writers and references. System_builder (Theorems/System.lean): for the request as one function (gathering from the observed target state, then the image), the builder operations of generate_dump produce exactly the returned image.",
-        "extra_modules": ["MdwModel.Theorems.System"],
+        "extra_modules": ["MdwModel.Theorems.System", "MdwModel.Theorems.ExcFields"]
     },
     "C19": {
         "rule": "live: 2 … 5 dump requests on one configured writer against a blocked target, then one request on a freshly configured writer; every "
@@ -194,8 +194,8 @@ PROPS = {
                        "thread's thread-list record, where that context's bytes are (or the stand-alone copy of the supplied context). "
                        "E2E_crash_thread (Theorems/EndToEnd.lean): in the model of the thread-list loop the listed thread the crash context blames takes its "
                        "stack pointer, instruction pointer and registers from the crash context, whatever ptrace reported for it. System_crash_context (Theorems/System.lean): for the request as one function from the observed target state to the image, the exception stream carries the supplied signal data and its context is the supplied one, the same bytes the blamed thread's record points at.",
-        "extra_modules": ["MdwModel.Theorems.EndToEnd", "MdwModel.Theorems.System"],
-        "extra_theorems": ["E2E_crash_thread", "E2E_other_thread", "System_crash_context", "System_dump_requested"],
+        "extra_modules": ["MdwModel.Theorems.EndToEnd", "MdwModel.Theorems.System", "MdwModel.Theorems.ExcFields"],
+        "extra_theorems": ["E2E_crash_thread", "E2E_other_thread", "System_crash_context", "System_dump_requested", "ExcFields_source_agrees", "ExcFields_verbatim", "ExcFields_fallback_context"]
     },
     "C04": {
         "rule": "in-process: random user_regs / fpregs / debug registers through the real ThreadInfo::fill_cpu_context; live: targets whose threads load sentinel "
